@@ -349,7 +349,10 @@ func (w *Writer) Close() error {
 }
 
 func (w *Writer) validateCommitRange(end telem.TimeStamp, switchingFile bool) error {
-	if !w.prevCommit.IsZero() && !switchingFile && end.Before(w.prevCommit) {
+	// Only a writer with a preset end may move its end backwards when switching files:
+	// its previous commits were stamped with the preset end rather than the real one.
+	shrinkingPresetEnd := switchingFile && w.presetEnd
+	if !w.prevCommit.IsZero() && !shrinkingPresetEnd && end.Before(w.prevCommit) {
 		return errors.Wrapf(validate.ErrValidation, "commit timestamp %s must not be less than the previous commit timestamp %s: it is less by a time span of %v", end, w.prevCommit, end.Span(w.prevCommit))
 	}
 	if !w.Start.Before(end) {
